@@ -251,14 +251,16 @@ def formula(cls, param, x):
 
 def in_range(cls, param, x):
     """Admissible numeric range: positive data and no overflow/underflow-to-zero of the naive exp / power sums
-    (the statement is about the mathematical functions, not about the floating-point range)."""
+    (the statement is about the mathematical functions, not about the floating-point range).  The sum overflows if
+    its LARGEST term does and underflows to zero only if its largest term does: terms far below the largest one may
+    vanish without harm (a soft minimum of widely spread data is well defined)."""
     x = np.asarray(x, dtype=float)
     if x.size == 0 or not np.all(x > 0) or not np.all(np.isfinite(x)):
         return False
     if cls == 'PNorm':
-        return bool(np.max(np.abs(param * np.log(x))) <= 300.0)
+        return bool(abs(np.max(param * np.log(x))) <= 300.0)
     if cls == 'KSFunction':
-        return bool(np.max(np.abs(param * x)) <= 300.0)
+        return bool(abs(np.max(param * x)) <= 300.0)
     return True
 
 
